@@ -1,5 +1,5 @@
 From Coq Require Import List ZArith Bool Lia Arith.
-From LTV Require Import Params_gen.
+From LTV.C13 Require Import ParamsGen.
 From LTV.C13 Require Import Model.
 Import ListNotations.
 Open Scope Z_scope.
